@@ -97,14 +97,21 @@ Grid(r, c, sep, sp, x, y, s, t, u, cat, am) ==
       caption |-> IF cp = 0 THEN <<>> ELSE cat[((s + t) % N) + 1],
       rows |-> rows, style |-> Sty(sep, sp, q, first)]
 
-GridsQ == { <<Grid(r, c, sep, sp, x, y, s, t, 0, Cat8, AM)>> :
-              r \in 1..3, c \in 1..3, sep \in {"line", "inline"}, sp \in BOOLEAN, x \in 0..2, y \in 0..2,
-              s \in 0..7, t \in 0..7 }
-GridsT == { <<Grid(r, c, sep, sp, x, y, s, t, u, Cat17, AMT)>> :
-              r \in 1..4, c \in 1..4, sep \in {"line", "inline", "mixed"}, sp \in BOOLEAN, x \in 0..2, y \in 0..2,
-              s \in 0..16, t \in 0..16, u \in 0..1 }
+\* the parameter tuples of this Part (filtered before any grid is built)
+Key(w) == w[1] + 3 * w[2] + 5 * w[5] + 7 * w[6] + 11 * w[7] + 13 * w[8] + (IF w[4] THEN 1 ELSE 0)
+Params(n, seps, ss, ts) ==
+  {w \in (1..n) \X (1..n) \X seps \X BOOLEAN \X (0..2) \X (0..2) \X ss \X ts : Key(w) % Parts = Part}
+GridsQ(z) == { <<Grid(v[1], v[2], v[3], v[4], v[5], v[6], v[7], v[8], 0, Cat8, AM)>> :
+               v \in Params(3, {"line", "inline"}, 0..7, {0, 1, 3, 5}) }
+GridsT(z) == { <<Grid(v[1], v[2], v[3], v[4], v[5], v[6], v[7], v[8], u, Cat17, AMT)>> :
+               v \in Params(4, {"line", "inline", "mixed"}, 0..16, 0..16), u \in 0..1 }
 \* a grid inside running text / inside a cell of another table
-Nested == { <<T(<<"w0", "NL">>), g[1], T(<<"NL", "w9">>)>> : g \in { h \in GridsQ : h[1].style.sp /\ Len(h[1].rows) = 2 } }
+Nested(z) == { <<T(<<"w0", "NL">>), g[1], T(<<"NL", "w9">>)>> : g \in { h \in GridsQ(z) : h[1].style.sp /\ Len(h[1].rows) = 2 } }
+\* a 2x2 grid in a cell of a 1x2 grid
+InCell(z) == { <<[k |-> "TB", tattrs |-> AM[2], hascap |-> FALSE, cattrs |-> <<>>, caption |-> <<>>,
+                 rows |-> <<[rattrs |-> <<>>, cells |-> <<Cell("data", <<>>, <<T(<<"NL">>), g[1], T(<<"NL">>)>>), Cell("data", AM[2], W("w9"))>>]>>,
+                 style |-> Sty("line", TRUE, "dq", TRUE)]>> :
+               g \in { h \in GridsQ(z) : Len(h[1].rows) = 2 /\ Len(h[1].rows[1].cells) = 2 } }
 
 (* ---------------- HTML elements ---------------- *)
 PairedTags == {t \in DOMAIN Tags : ~Tags[t].noend}
@@ -121,8 +128,9 @@ Surround(n, item) ==
                    rows |-> <<[rattrs |-> <<>>, cells |-> <<Cell("data", <<>>, <<item>>), Cell("data", <<>>, W("w9"))>>]>>,
                    style |-> Sty("line", TRUE, "dq", TRUE)]>>
 ElMaps == HM \o HMU
-Elements == { Surround(sn, Ht(t, ElMaps[m], ElContent(t, cn))) :
-                t \in PairedTags, m \in 1..Len(ElMaps), cn \in 1..3, sn \in 1..3 }
+Elements(z) == { Surround(v[3], Ht(t, ElMaps[v[1]], ElContent(t, v[2]))) :
+                t \in PairedTags,
+                v \in {w \in (1..Len(ElMaps)) \X (1..3) \X (1..3) : (w[1] * 9 + w[2] * 3 + w[3]) % Parts = Part} }
 
 (* ---------------- calls and links ---------------- *)
 ArgCat ==
@@ -131,7 +139,7 @@ ArgCat ==
      <<T(<<"a1", "SP">>), Lk(<<W("l"), W("x1")>>, <<>>)>> >>
 ArgLists(cat, lo, hi) == UNION { [1..n -> {cat[i] : i \in 1..Len(cat)}] : n \in lo..hi }
 LinkText == << W("x1"), <<T(<<"x1", "SP", "y1">>)>>, <<It(W("i1"))>>, <<Tp(<<W("t"), W("a1")>>)>>, <<T(<<"thumb">>)>> >>
-Calls ==
+Calls(z) ==
   { Tp(<<W("t")>> \o as) : as \in ArgLists(ArgCat, 0, 3) }
   \cup { Ar(<<W("1")>> \o as) : as \in ArgLists(ArgCat, 0, 2) }
   \cup { Pf(<<"#", "if">>, as) : as \in ArgLists(ArgCat, 1, 2) }
@@ -141,23 +149,23 @@ Calls ==
                                  as \in ArgLists(LinkText, 0, 2), tr \in {<<>>, <<"s">>} }
   \cup { Ex(Url1, tx) : tx \in {<<>>, W("u1"), <<T(<<"u1", "SP", "u2">>)>>, <<It(W("i1"))>>, <<Tp(<<W("t"), W("a1")>>)>>} }
   \cup { Ex(<<"https", ":", "/", "/", "w.org">>, W("u1")) }
-CallPages == { Surround(sn, cl) : cl \in Calls, sn \in 1..3 }
+CallPages(z) == { pg \in { Surround(sn, cl) : cl \in Calls(z), sn \in 1..3 } : Len(Render(pg)) % Parts = Part }
 
 (* ---------------- the universe ---------------- *)
-FilePages == LET raw == JsonDeserialize(IOEnv.PAGES_FILE) IN {raw[i] : i \in 1..Len(raw)}
+\* (the universes take a dummy parameter: TLC evaluates every parameterless constant
+\* definition at start-up, which would build all of them in every run)
+FilePages(z) == LET raw == JsonDeserialize(IOEnv.PAGES_FILE) IN {raw[i] : i \in {k \in 1..Len(raw) : k % Parts = Part}}
 Pages ==
-  CASE Universe = "GQ" -> GridsQ
-    [] Universe = "GT" -> GridsT
-    [] Universe = "NEST" -> Nested
-    [] Universe = "EL" -> Elements
-    [] Universe = "CALL" -> CallPages
-    [] Universe = "FILE" -> FilePages
+  CASE Universe = "GQ" -> GridsQ(0)
+    [] Universe = "GT" -> GridsT(0)
+    [] Universe = "NEST" -> Nested(0) \cup InCell(0)
+    [] Universe = "EL" -> Elements(0)
+    [] Universe = "CALL" -> CallPages(0)
+    [] Universe = "FILE" -> FilePages(0)
 
-\* split by a cheap structural hash so that parallel TLC processes share the work
-Hash(page) == Len(Render(page))
 \* `done` only keeps TLC from evaluating the invariant twice per structure
 VARIABLES page, done
-Init == page \in {p \in Pages : Hash(p) % Parts = Part} /\ done = FALSE
+Init == page \in Pages /\ done = FALSE
 Next == ~done /\ done' = TRUE /\ UNCHANGED page
 Spec == Init /\ [][Next]_<<page, done>>
 
